@@ -221,6 +221,9 @@ func init() {
 			}
 			return ex.mkSliceFromElems(st, es)
 		},
+		"vsRunUntilBlocked": func(ex *Exec, st *State, fn *ssa.Function, args []Value, site ssa.Instruction) Value {
+			return ex.runUntilBlocked(st, args[0], site)
+		},
 		"vsPanicsOff": func(ex *Exec, st *State, fn *ssa.Function, args []Value, site ssa.Instruction) Value {
 			return nil
 		},
